@@ -549,7 +549,9 @@ def rule_residual(program, ctx, prop=P, rid="C01.residual"):
     for y in ys:
         st = cfg.ast_of(y)
     ge = program.func("nostr_relay.storage.kv:get_event_data")
-    if any(isinstance(b, ast.BinOp) and isinstance(b.left, ast.Constant) and b.left.value == b"\x00" for b in ast.walk(ge)):
+    from ..lib import bytes_prefix_of
+
+    if bytes_prefix_of(ge) == b"\x00":
         ctx.ok(rid, ge, "get_event_data reads under the primary-record prefix \\x00 only")
     else:
         ctx.bad(finding_func(prop, rid, ge, "get_event_data no longer pins the primary-record prefix: index rows could be decoded as events", text="def get_event_data(...)"))
@@ -764,7 +766,7 @@ def rule_tagindex(program, ctx, prop=P, rid="C01.tagindex"):
             T = l.target.id
             # loop-local names for parts of the tag (name = tag[0]; value = tag[1] if … else "") are read through
             local = {}
-            for st in l.body:
+            for st in ast.walk(l):
                 if isinstance(st, ast.Assign) and len(st.targets) == 1 and isinstance(st.targets[0], ast.Name) and st.targets[0].id != T:
                     if sum(1 for x in ast.walk(l) if isinstance(x, ast.Name) and x.id == st.targets[0].id and isinstance(x.ctx, ast.Store)) == 1:
                         local[st.targets[0].id] = st.value
